@@ -29,6 +29,8 @@ _real_open = builtins.open
 _real_io_open = io.open
 _real_os = {n: getattr(os, n) for n in ("open", "write", "close", "replace", "rename", "unlink", "remove", "mkdir", "rmdir", "truncate", "link", "symlink")}
 FDS: dict = {}
+SHIMS: dict = {}   # descriptor -> ShimFile (effects issued through the descriptor: sendfile)
+_real_sendfile = getattr(os, "sendfile", None)
 
 
 def watched(p):
@@ -68,6 +70,10 @@ class ShimFile:
         self.binary = "b" in mode
         self.pending = bytearray()
         self.name = path
+        try:
+            SHIMS[real.fileno()] = self
+        except Exception:  # noqa
+            pass
 
     def write(self, s):
         b = bytes(s) if isinstance(s, (bytes, bytearray, memoryview)) else s.encode(self.encoding)
@@ -95,6 +101,10 @@ class ShimFile:
             self.closed_ = True
             self._issue()
             LOG.append(("CLOSE", self.path))
+            try:
+                SHIMS.pop(self.real.fileno(), None)
+            except Exception:  # noqa
+                pass
             self.real.close()
 
     @property
@@ -181,15 +191,58 @@ def shim_os_close(fd):
 
 def _mk2(name, tag):
     def f(a, b, *ar, **kw):
-        if watched(a) or watched(b):
-            pa, pb = os.path.abspath(os.fspath(a)), os.path.abspath(os.fspath(b))
+        wa, wb = watched(a), watched(b)
+        if not (wa or wb):
+            return _real_os[name](a, b, *ar, **kw)
+        pa, pb = os.path.abspath(os.fspath(a)), os.path.abspath(os.fspath(b))
+        saved = dict(INO)
+        if wa and wb:
             LOG.append((tag, pa, pb))
             ino = _ino_of(pa)
             if tag == "REPLACE":
                 INO.pop(pa, None)
             INO[pb] = ino
-        return _real_os[name](a, b, *ar, **kw)
+        elif wb:
+            # a file from outside the watched tree is renamed / linked into it: it arrives whole, under a new inode
+            with _real_open(pa, "rb") as fh:
+                content = fh.read()
+            LOG.append(("IMPORT", pb, content, _ino_of(pb, create=True)))
+        else:
+            # a watched file leaves the tree (rename) - for the tree it is gone; a link out of the tree changes nothing in it
+            if tag == "REPLACE":
+                LOG.append(("UNLINK", pa))
+                INO.pop(pa, None)
+        n = len(LOG)
+        try:
+            return _real_os[name](a, b, *ar, **kw)
+        except OSError:
+            # the operating system refused (EXDEV, ENOENT ...): nothing happened, the caller may go on another way
+            if len(LOG) == n and n and LOG[-1][0] in (tag, "IMPORT", "UNLINK"):
+                list.pop(LOG)
+            INO.clear()
+            INO.update(saved)
+            raise
     return f
+
+
+def shim_sendfile(out_fd, in_fd, offset, count, *ar, **kw):
+    """shutil's fast copy writes through the descriptor of the destination file, not through its write()."""
+    sf = SHIMS.get(out_fd)
+    if sf is not None and not sf.closed_ and offset is not None:
+        sf._issue()
+        data = os.pread(in_fd, count, offset)
+        if data:
+            LOG.append(("APPEND", sf.path, data, sf.ino))
+            sent = _real_sendfile(out_fd, in_fd, offset, len(data), *ar, **kw)
+            if sent != len(data):
+                raise RuntimeError("faultfs: sendfile wrote %d of %d logged bytes" % (sent, len(data)))
+            return sent
+    elif out_fd in FDS and offset is not None:
+        data = os.pread(in_fd, count, offset)
+        if data:
+            LOG.append(("APPEND", FDS[out_fd][0], data, FDS[out_fd][1]))
+            return _real_sendfile(out_fd, in_fd, offset, len(data), *ar, **kw)
+    return _real_sendfile(out_fd, in_fd, offset, count, *ar, **kw)
 
 
 def _mk1(name, tag):
@@ -206,6 +259,9 @@ def install(root):
     del LOG[:]
     INO.clear()
     FDS.clear()
+    SHIMS.clear()
+    if _real_sendfile:
+        os.sendfile = shim_sendfile
     builtins.open = shim_open
     io.open = shim_open
     os.open, os.write, os.close = shim_os_open, shim_os_write, shim_os_close
@@ -219,6 +275,8 @@ def uninstall():
     io.open = _real_io_open
     for n, f in _real_os.items():
         setattr(os, n, f)
+    if _real_sendfile:
+        os.sendfile = _real_sendfile
     FAIL.clear()
 
 
@@ -260,6 +318,9 @@ def apply_effects(model, effects, root):
             data[e[3]] = data.get(e[3], b"") + e[2]
         elif e[0] == "REPLACE":
             paths[os.path.relpath(e[2], root)] = paths.pop(k)
+        elif e[0] == "IMPORT":
+            paths[k] = e[3]
+            data[e[3]] = e[2]
         elif e[0] == "LINK":
             paths[os.path.relpath(e[2], root)] = paths[k]
         elif e[0] in ("UNLINK", "RMDIR"):
